@@ -633,6 +633,12 @@ def label_of(name, kinds, who):
 def replay_case(w):
     if w["action"] == "created_parent":
         return {"op": "created_parent", "attach_first": w["new"][0] == "attached", "input": "<r/>"}
+    if w["action"] == "set_attribute_node":
+        names = w.get("names") or ["a"]
+        cls = [names.index(x) for x in names]          # look-alike classes of the attribute names; the last one is the new attribute
+        attrs = "".join(" a%d='x'" % cls[i] for i in range(len(names) - 1))
+        body = render(tuple(w["kinds"]), None)[len("<g><p>"):-len("</p></g>")]
+        return {"op": "attr_order", "input": "<g><p%s>%s</p></g>" % (attrs, body), "name": "a%d" % cls[-1]}
     kinds, gc, action = tuple(w["kinds"]), w["gc"], w["action"]
     who = tuple(w["new"])
     newj = None
@@ -670,6 +676,8 @@ def judge(case, out):
         return True
     if case.get("op") == "created_parent":
         return not (out.get("parent_of_c") == "p" and out.get("p_children_after_move") == [] and out.get("root_children_after_move", [])[-1:] == ["c"])
+    if case.get("op") == "attr_order":
+        return not out.get("ok") or out.get("edited") != out.get("fresh")
     want = case.get("specified")
     if want == "ok":
         if not out.get("ok"):
@@ -784,7 +792,10 @@ def obligations(rep, rp, prop, tier, jobs_n=16):
             elif confirmed:
                 w, full, rr = confirmed
                 status = "violated"
-                if action == "created_parent":
+                if action == "set_attribute_node":
+                    rep.violation(oid + "." + cls, full, "set_attribute(%s) on <p> of %s: XPath lists nodes and attributes as %s, a fresh parse of the result (%s) as %s" % (
+                        full.get("name"), full["input"], rr.get("edited"), rr.get("printed"), rr.get("fresh")))
+                elif action == "created_parent":
                     rep.violation(oid + "." + cls, full, "p = create_element (%s to <r>), p.append_child(c), then r.append_child(c): c.parent_node() is %s and p still lists %s afterwards (document: %s) - the id table no longer resolves the created parent" % (
                         "appended" if full.get("attach_first") else "not appended", rr.get("parent_of_c"), rr.get("p_children_after_move"), rr.get("printed")))
                 else:
